@@ -236,9 +236,10 @@ func (s *c28Sim) mount(c *Change, as *Assumptions) ([]*Change, error) {
 	origin := e.XSnapdOrigin()
 	failMode := 0
 	if origin != "layout" && origin != "overname" && s.failRate > 0 {
-		if c28HashFloat(s.caseKey, fmt.Sprint(s.update), target, "fail") < s.failRate {
+		// keyed by the path inside the tree: the scratch location must not matter
+		if c28HashFloat(s.caseKey, fmt.Sprint(s.update), s.tree.rel(target), "fail") < s.failRate {
 			failMode = 1
-			if c28HashFloat(s.caseKey, fmt.Sprint(s.update), target, "mode") < 0.5 {
+			if c28HashFloat(s.caseKey, fmt.Sprint(s.update), s.tree.rel(target), "mode") < 0.5 {
 				failMode = 2
 			}
 		}
